@@ -214,6 +214,12 @@ def gen_C20(rng, tier):
         yp = p.tensor([3], [0.2, 0.5, 0.9]); yt = p.tensor([3], [0.0, 1.0, 1.0])
         shared = dict(W=W, B=B, X=X, U=U, f=f, a=a, j=j, shape=shape, yp=yp, yt=yt)
         nthreads = rng.choice([2, 3, 4, 8, 16])
+        if i % 2 == 0:
+            # random constructors BEFORE the goroutines start: here the values are compared too (raw draws replayed from the seed)
+            p.add('seedrng %d' % rng.randrange(1, 10 ** 6))
+            r0 = p.bind('randu U %s %s %s' % (ints([2, 3]), f2b(-1.0), f2b(2.0))); p.add('obs %s' % r0)
+            r1 = p.bind('randn T %s %s %s' % (ints([4]), f2b(1.0), f2b(0.5))); p.add('obs %s' % r1)
+            p.tag('sequential-draws-first')
         if i % 3 == 1:
             # calls the library rejects, before the goroutines start: an error path must leave nothing behind that the
             # concurrent calls could trip over
